@@ -34,3 +34,20 @@ func (s *Socket) SetDeadline(t time.Time) error {
 	}
 	return s.UnixConn.SetDeadline(t)
 }
+
+// SetReadDeadline shadows the promoted net.UnixConn method. The simulated transport has one
+// deadline, and only receives can block on it (sends never block in the simulation).
+func (s *Socket) SetReadDeadline(t time.Time) error {
+	if s.Sim != nil {
+		return s.Sim.SimSetDeadline(t)
+	}
+	return s.UnixConn.SetReadDeadline(t)
+}
+
+// SetWriteDeadline shadows the promoted net.UnixConn method (no effect on a simulated transport).
+func (s *Socket) SetWriteDeadline(t time.Time) error {
+	if s.Sim != nil {
+		return nil
+	}
+	return s.UnixConn.SetWriteDeadline(t)
+}
